@@ -969,6 +969,9 @@ func replayC19(line string) {
 	case "c19race":
 		replayRace(n)
 		return
+	case "c19bp":
+		replayBP(n)
+		return
 	case "c19":
 		if len(n.Kids) < 8 {
 			return
@@ -1345,9 +1348,12 @@ func genC19(tier string, rng *Rng) {
 			}
 			pre = append(pre, &rwp.OutboundMessage{PanelInfo: &rwp.PanelInfo{Name: "only a name"}}, &rwp.OutboundMessage{Events: []*rwp.HWCEvent{ev(1, 1, rng)}})
 			type late struct{ k, d int }
-			lates := []late{{0, 0}, {1, 300}, {1, 2700}, {2, 100}}
+			// (late arrivals spread over the whole 2 s window: seed C19-14 polled the "initialised" condition
+			// with doubling pauses - 10, 30, 70 ... 1270 ms, then nothing until the 2 s timer - so an item
+			// arriving at 1.3-2.0 s made Connect fail although everything had arrived in time)
+			lates := []late{{0, 0}, {1, 300}, {1, 2700}, {2, 100}, {1, 900}, {1, 1600}}
 			if thorough {
-				lates = append(lates, late{1, 1400}, late{2, 1000})
+				lates = append(lates, late{1, 1400}, late{2, 1000}, late{1, 600}, late{1, 1200}, late{1, 1750})
 			} else if mask%5 != 0 {
 				lates = []late{{0, 0}, {1, 300}}
 				if mask%2 == 0 {
@@ -1694,6 +1700,207 @@ func raceCases(thorough bool) {
 			runRaceChild(exe, raceBuild, bin, 400, 600)
 		}
 	}
+	// back-pressure: the panel sends a burst of events and reads nothing for 1.5 s while every handler
+	// answers with a large state; afterwards everything must have been dispatched and every answer must
+	// arrive (seed C19-13: the keep-alive ping queued into the channel that the same goroutine drains -
+	// with the queue full at a tick the client locks up for good)
+	for _, bin := range []bool{true, false} {
+		runBPChild(exe, bin, 300, 64)
+		if thorough {
+			runBPChild(exe, bin, 120, 256)
+		}
+	}
+}
+
+// (c19bp MODE NEVENTS FBKB | CALLS_OK FEEDBACK_OK END)
+func runBPChild(exe string, bin bool, nevents, fbKB int) {
+	mode := "0"
+	if bin {
+		mode = "1"
+	}
+	cmd := exec.Command(exe, "C19", "-replay", "/dev/null")
+	cmd.Env = append(os.Environ(), "C19_BP_CHILD="+mode+","+strconv.Itoa(nevents)+","+strconv.Itoa(fbKB))
+	var stdout, stderr bytes.Buffer
+	cmd.Stdout, cmd.Stderr = &stdout, &stderr
+	done := make(chan error, 1)
+	cmd.Start()
+	go func() { done <- cmd.Wait() }()
+	end := "hang"
+	select {
+	case <-done:
+		end = "exit"
+	case <-time.After(60 * time.Second):
+		cmd.Process.Kill()
+	}
+	callsOK := strings.Contains(stdout.String(), "CHILD calls-ok")
+	fbOK := strings.Contains(stdout.String(), "CHILD feedback-ok")
+	if end == "exit" {
+		if strings.Contains(stdout.String(), "CHILD live") {
+			end = "live"
+		} else {
+			end = "stalled"
+		}
+	}
+	c19stats["backpressure-child-runs"]++
+	emit(L(Sym("c19bp"), bin, nevents, fbKB, L(callsOK, fbOK, Sym(end))))
+}
+
+func replayBP(n *Node) {
+	exe, err := os.Executable()
+	if err != nil {
+		return
+	}
+	runBPChild(exe, n.Kids[1].Bool(), n.Kids[2].Int(), n.Kids[3].Int())
+}
+
+func init() {
+	spec := os.Getenv("C19_BP_CHILD")
+	if spec == "" {
+		return
+	}
+	os.Unsetenv("C19_BP_CHILD")
+	parts := strings.Split(spec, ",")
+	ne, _ := strconv.Atoi(parts[1])
+	kb, _ := strconv.Atoi(parts[2])
+	bpChild(parts[0] == "1", ne, kb)
+	os.Exit(0)
+}
+
+func bpChild(bin bool, nevents, fbKB int) {
+	if caseOut == nil {
+		caseOut = os.Stdout
+	}
+	ln, err := net.Listen("tcp", "127.0.0.1:0")
+	if err != nil {
+		return
+	}
+	g := &gen{rng: NewRng(11)}
+	goCh := make(chan struct{})
+	var fbSeen int32
+	peerDone := make(chan struct{})
+	go func() {
+		defer close(peerDone)
+		conn, err := ln.Accept()
+		if err != nil {
+			return
+		}
+		probe := make([]byte, 6)
+		io.ReadFull(conn, probe)
+		if bin {
+			conn.Write([]byte{2, 0, 0, 0, 8, 2})
+		} else {
+			conn.Write([]byte("RDY\n"))
+		}
+		// reader of what the client sends: counts the large answers; does not start before the pause is over
+		startRead := make(chan struct{})
+		go func() {
+			<-startRead
+			if bin {
+				for {
+					h := make([]byte, 4)
+					if _, err := io.ReadFull(conn, h); err != nil {
+						return
+					}
+					n := binary.LittleEndian.Uint32(h)
+					if n > 1<<24 {
+						return
+					}
+					pl := make([]byte, n)
+					if _, err := io.ReadFull(conn, pl); err != nil {
+						return
+					}
+					m := &rwp.InboundMessage{}
+					proto.Unmarshal(pl, m)
+					for _, st := range m.States {
+						if st.HWCGfx != nil {
+							atomic.AddInt32(&fbSeen, 1)
+						}
+					}
+				}
+			}
+			sc := bufio.NewReaderSize(conn, 1<<20)
+			for {
+				line, err := sc.ReadString('\n')
+				if strings.HasPrefix(line, "HWCg") && strings.Contains(line, "=0/") {
+					atomic.AddInt32(&fbSeen, 1)
+				}
+				if err != nil {
+					return
+				}
+			}
+		}()
+		// during initialisation the peer must read (the init request); do that on this goroutine with deadlines
+		drainUntil := func(d time.Duration) {
+			conn.SetReadDeadline(time.Now().Add(d))
+			io.Copy(io.Discard, conn)
+			conn.SetReadDeadline(time.Time{})
+		}
+		time.Sleep(50 * time.Millisecond)
+		for _, it := range g.msgItems(bin, fullInfoMsgs(0)...) {
+			conn.Write(it.wire())
+		}
+		drainUntil(300 * time.Millisecond)
+		<-goCh
+		drainUntil(100 * time.Millisecond)
+		var burst []byte
+		for i := 0; i < nevents; i++ {
+			e := &rwp.HWCEvent{HWCID: 7, Binary: &rwp.BinaryEvent{Pressed: i%2 == 0}}
+			for _, it := range g.msgItems(bin, &rwp.OutboundMessage{Events: []*rwp.HWCEvent{e}}) {
+				burst = append(burst, it.wire()...)
+			}
+		}
+		conn.Write(burst)
+		time.Sleep(1500 * time.Millisecond) // the panel reads nothing
+		close(startRead)
+		time.Sleep(300 * time.Millisecond)
+		conn.Write(markerItem(bin).wire())
+		time.Sleep(20 * time.Second)
+	}()
+	ctx, cancel := context.WithCancel(context.Background())
+	rp, err := gorwp.Connect(ln.Addr().String(), ctx, cancel)
+	if err != nil || rp == nil {
+		fmt.Fprintln(caseOut, "CHILD noconnect")
+		return
+	}
+	var calls int32
+	big := make([]byte, fbKB*1024)
+	for i := range big {
+		big[i] = byte(i)
+	}
+	w, h := 256, fbKB*1024/2/256
+	rp.BindBinary(7, func(uint32, gorwp.BinaryStatus, gorwp.BinaryEdge) {
+		atomic.AddInt32(&calls, 1)
+		rp.SendRawState(&rwp.HWCState{HWCIDs: []uint32{7}, HWCGfx: &rwp.HWCGfx{ImageType: rwp.HWCGfx_RGB16bit, W: uint32(w), H: uint32(h), ImageData: big}})
+	})
+	markerCh := make(chan struct{}, 1)
+	rp.BindTrigger(markerID, func(uint32, *rwp.HWCEvent) {
+		select {
+		case markerCh <- struct{}{}:
+		default:
+		}
+	})
+	close(goCh)
+	select {
+	case <-markerCh:
+		fmt.Fprintln(caseOut, "CHILD live")
+	case <-time.After(25 * time.Second):
+		fmt.Fprintln(caseOut, "CHILD stalled")
+	}
+	// the answers may still be on their way: wait for them (bounded)
+	for t := 0; t < 100 && int(atomic.LoadInt32(&fbSeen)) < nevents; t++ {
+		time.Sleep(100 * time.Millisecond)
+	}
+	if int(atomic.LoadInt32(&calls)) == nevents {
+		fmt.Fprintln(caseOut, "CHILD calls-ok")
+	} else {
+		fmt.Fprintln(caseOut, "CHILD calls", atomic.LoadInt32(&calls), "of", nevents)
+	}
+	if int(atomic.LoadInt32(&fbSeen)) == nevents {
+		fmt.Fprintln(caseOut, "CHILD feedback-ok")
+	} else {
+		fmt.Fprintln(caseOut, "CHILD feedback", atomic.LoadInt32(&fbSeen), "of", nevents)
+	}
+	cancel()
 }
 
 func runRaceChild(exe string, raceBuild bool, bin bool, nbinds, nevents int) {
